@@ -55,7 +55,7 @@ def cases(tier, rng):
     for size in (256, 512):
         B = 128 if size == 512 else 64
         omax = B // 2
-        for n in list(range(0, 2 * B + 2)) + [3 * B - 1, 3 * B, 3 * B + 1, 4 * B, 4 * B + 1, 5 * B, 4095, 4096, 4099, 65539]:
+        for n in list(range(0, 2 * B + 2)) + [3 * B - 1, 3 * B, 3 * B + 1, 4 * B, 4 * B + 1, 5 * B, 4095, 4096, 4099, 65535, 65536, 65539, 131072]:
             yield {'k': 'blake2', 'size': size, 'n': n, 'pc': 'default', 'pat': 'rand', 'single': n % 4 == 0}
         for ol in range(1, omax + 1):
             yield {'k': 'blake2', 'size': size, 'n': [0, 3, B, B + 1][ol % 4], 'pc': 'outlen', 'outlen': ol, 'pat': 'rand', 'single': ol % 7 == 0}
